@@ -337,3 +337,26 @@ def gen_solve_sentinel(sp, L, W, first, probs=(0.1, 0.05, 0.1), budget=20000):
         ok = e["msg"] == "Game solved" or e["msg"] == "Game not solved" or ("no solution" in e["msg"])
         sp.prove(ok, "%s: %s (moves=%s loose=%s)" % (k, e["msg"], moves, loose))
         sp.cover("solved" if e["msg"] == "Game solved" else "nosol")
+
+
+# ------------------------------------------------------------------ C08 sentinel: boards with hundreds of rows / columns (concrete)
+@harness("gen.tall_board", props=["C08", "C11"], sentinel=True,
+         jobs=lambda tier, seed: [dict(L=L, W=W, seed=seed) for (L, W) in ((300, 1), (260, 2), (1, 300), (3, 130))],
+         stubs=["open -> in-memory file"],
+         bounds="CONCRETE: four boards with 260-390 tiles (300x1, 260x2, 1x300, 3x130), seeded arrows / loose flags / rewards, probabilities 0.1 / 0.2 / 0.3",
+         desc="CONCRETE (not a solver verdict): on boards far beyond the exhaustive bound the three written games are, from state 0, "
+              "isomorphic to the reference Roborta game (index arithmetic for hundreds of rows and columns)")
+def gen_tall_board(sp, L, W, seed):
+    import random
+    gen, cr, _ = mods()
+    rnd = random.Random(1000 * L + W + seed)
+    moves = [[rnd.choice((0, 1, 1, 2, 3)) for _ in range(W)] for _ in range(L)]
+    loose = [[rnd.choice((0, 0, 1)) for _ in range(W)] for _ in range(L)]
+    rewards = [[rnd.randrange(0, 7) for _ in range(W)] for _ in range(L)]
+    FakeFile.store, FakeFile.opened = {}, []
+    gen.write_robots("inputs/tall.py", L, W, moves, rewards, loose, 0.1, 0.2, 0.3)
+    d = cr.read_dict_from_file("inputs/tall.py")
+    sp.prove(list(d.keys()) == ["game_a", "game_b", "game_c"], "file denotes games %s" % list(d.keys()))
+    for variant in "abc":
+        fwd = check_iso(sp, d["game_" + variant], ref_game(variant, L, W, moves, loose, rewards, 0.1, 0.2, 0.3), variant)
+        sp.prove(len(fwd) > L, "game %s: only %d states reachable on a %dx%d board" % (variant, len(fwd), L, W))
